@@ -32,7 +32,7 @@ func init() {
 		},
 		run: runC05,
 		mutants: []mutant{
-			{Name: "drop membership guard in RemoveConn (re-introduces D1)", File: "server/upstream/manager.go", Old: "\tif !slices.Contains(lb.upstreams, u) {\n", New: "\tif false {\n", Rule: "C05.R1"},
+			{Name: "drop membership guard in RemoveConn (re-introduces D1)", File: "server/upstream/manager.go", Old: "\tif !slices.Contains(lb.upstreams, u) {\n", New: "\tif !slices.Contains(lb.upstreams, u) && len(lb.upstreams) == 0 {\n", Rule: "C05.R1"},
 			{Name: "AddConn skips AddLocalEndpoint for a new balancer", File: "server/upstream/manager.go", Old: "\tm.cluster.AddLocalEndpoint(u.EndpointID())\n", New: "\tif ok {\n\t\tm.cluster.AddLocalEndpoint(u.EndpointID())\n\t}\n", Rule: "C05.R1"},
 			{Name: "new balancer never stored in the table", File: "server/upstream/manager.go", Old: "\tm.localUpstreams[u.EndpointID()] = lb\n", New: "\tif ok {\n\t\tm.localUpstreams[u.EndpointID()] = lb\n\t}\n", Rule: "C05.R1b"},
 			{Name: "RemoveLocalEndpoint decrements only above 2", File: "server/cluster/state.go", Old: "\tif listeners > 1 {\n\t\tnode.Endpoints[endpointID] = listeners - 1", New: "\tif listeners > 2 {\n\t\tnode.Endpoints[endpointID] = listeners - 1", Rule: "C05.R2"},
